@@ -1806,6 +1806,14 @@ macro_rules! vec_impl_vec {
             }
         }
 
+        #[cfg(vek_verif)]
+        impl<T> IntoIter<T> {
+            /// Verification hook (only with `--cfg vek_verif`): the private `(start, end)` cursors.
+            pub fn verif_cursors(&self) -> (usize, usize) {
+                (self.start, self.end)
+            }
+        }
+
         impl<T> IntoIterator for $Vec<T> {
             type Item = T;
             type IntoIter = IntoIter<T>;
